@@ -264,6 +264,9 @@ class Verifier(Stmts):
 
     # ------------------------------------------------------------ deref of write-through dict items
     def deref(self, st, v):
+        if isinstance(v.ref, tuple) and v.ref[0] == 'listitem':
+            _, lref, idx, lt = v.ref
+            return list_get(lt, st.heap[lref], idx)
         if isinstance(v.ref, tuple) and v.ref[0] == 'item':
             _, dref, k = v.ref
             D = st.heap[dref]
@@ -271,6 +274,11 @@ class Verifier(Stmts):
             return opt_val(opt(v.t), z3.Select(D, k))
         return Stmts.deref(self, st, v)
     def setcell(self, st, v, z):
+        if isinstance(v.ref, tuple) and v.ref[0] == 'listitem':
+            _, lref, idx, lt = v.ref
+            L = st.heap[lref]
+            st.heap[lref] = list_mk(lt, z3.Store(list_arr(lt, L), idx, z), list_len(lt, L))
+            return
         if isinstance(v.ref, tuple) and v.ref[0] == 'item':
             _, dref, k = v.ref
             st.heap[dref] = z3.Store(st.heap[dref], k, opt_some(opt(v.t), z))
